@@ -550,7 +550,12 @@ def pmap(fn: Callable[[Any], Any], items: Sequence[Any], *, chunk: int = 500, pr
         if kind == "ok":
             yield val
         elif kind == "error":
-            raise MachineryError("replay raised inside the harness:\n" + str(val))
+            # an exception that escaped a replay function: on an unchanged tree this would be a harness
+            # bug, on a changed tree it is almost always the library misbehaving at a call the replay did
+            # not expect to fail; report it against the case rather than aborting the whole run
+            last = [ln for ln in str(val).strip().splitlines() if ln.strip()][-1][:160]
+            it = items[i] if not isinstance(items[i], tuple) else items[i][0]
+            yield [("replay-could-not-complete:" + last.split(":")[0], {"tagged": it, "traceback": str(val)[-1500:]}, last)]
         else:
             yield _abnormal({"timeout": "call-did-not-terminate", "crash": "interpreter-crashed",
                              "recursion": "unbounded-recursion"}[kind], items[i])
